@@ -64,7 +64,7 @@ func (c pcase) runFreeCollection() cfreeOut {
 func (c pcase) runFreeCollectionInner(out *cfreeOut) {
 	var E func(x, y proto.Message) bool
 	if c.Spec != nil {
-		E = c.Spec.build()
+		E = guarded(c.Spec.build())
 	}
 	var mu sync.Mutex
 	var calls []bool
